@@ -42,7 +42,7 @@ def make_jobs(ctx):
               info=dict(layer="lemma", static_cmd="z3 (linear integer arithmetic): lexicographic order on normalised (sec,nsec) implies order of sec*10^9+nsec"))
     lem.static_fn = monotone_lemma
     jobs.append(lem)
-    rmax = 1024 if ctx.tier == "thorough" else int(__import__("os").environ.get("RMAX", "300"))
+    rmax = 512 if ctx.tier == "thorough" else int(__import__("os").environ.get("RMAX", "300"))
     # unbounded in the length: inductive loop contract on the chunking loop of wasiRandomGet
     from ..core import inject_loop_contracts
     inj = inject_loop_contracts(ctx, "wasi/wasi.c", [(r"while \(result == 0 && filled < bufferLength\)(?=\s*\{)",
